@@ -152,6 +152,10 @@ def run_case(case):
                 if header_only and maxmins:
                     continue
                 runs.append((limit, header_only, maxmins))
+    # the limit as a numpy integer (what a loop over np.arange hands over): below and above the finest level
+    for l in sorted({0, ref.nlev}):
+        runs.append((np.int64(l), False, False))
+        runs.append((np.int64(l), True, False))
 
     def one(limit, header_only, maxmins, canary=False):
         def path(ctx):
@@ -195,7 +199,8 @@ def run_case(case):
                 sig = 'C02/%s%s%s/%s' % ('limit' if limit is not None and limit < ref.nlev - 1 else ('above' if limit is not None and limit > ref.nlev - 1 else 'all'),
                                          '+header_only' if header_only else '', '+maxmins' if maxmins else '', attr)
                 if sig not in viol:
-                    viol[sig] = {'signature': sig, 'what': msg, 'args': [limit, header_only, maxmins], 'model': obl.failed[0][1]}
+                    viol[sig] = {'signature': sig, 'what': msg, 'args': [None if limit is None else int(limit), header_only, maxmins], 'model': obl.failed[0][1],
+                                 'limit_type': 'np.int64' if isinstance(limit, np.integer) else None}
     cres, _, _ = one(None, False, False, canary=True)
     res['canaries'] += 1
     if cres and cres[0][1].failed:
@@ -207,8 +212,7 @@ def run_case(case):
     for sig, v in viol.items():
         if not common.claim('C02', sig):
             continue
-        d = make_replay(ref, v)
-        status, out = common.run_replay(d)
+        d, status, out = common.replay_portfolio(lambda: make_replay(ref, v))
         v2 = {'signature': sig, 'what': v['what'], 'replay': d}
         if status == 'reproduced':
             res['violations'].append(v2)
@@ -243,7 +247,7 @@ def make_replay(ref, v):
            'offsets': [[list(ref.offsets(l)[b]) for b in range(len(ref.boxes[l]))] for l in range(ref.nlev)],
            'mins': [[[float(val(x)) for x in row] for row in lv] for lv in ref.mins],
            'maxs': [[[float(val(x)) for x in row] for row in lv] for lv in ref.maxs]}
-    case = {'property': 'C02', 'handler': 'c02', 'signature': v['signature'], 'what': v['what'], 'args': v['args'], 'expected': exp, 'level_prefix': ref.level_prefix}
+    case = {'property': 'C02', 'handler': 'c02', 'signature': v['signature'], 'what': v['what'], 'args': v['args'], 'expected': exp, 'level_prefix': ref.level_prefix, 'limit_type': v.get('limit_type')}
     with open(os.path.join(d, 'case.json'), 'w') as f:
         json.dump(case, f, indent=1)
     common.write_replay_stub(d)
@@ -276,6 +280,9 @@ def cases():
         m = families.random_mesh(rnd, nd, max_levels=3, max_boxes=4 if tier == 'quick' else 6, max_extent=4 if tier == 'quick' else 8)
         m.name = 'rand%d-%dd' % (r, nd)
         out.append({'label': m.name, 'mesh': m, 'fields': rnd.choice(fsets), 'layout': families.scatter_layouts(m, rnd, 3), 'ref_extra': rnd.randrange(3)})
+    # eleven levels: a level number with two digits
+    dm = families.deep_mesh(11, 2)
+    out.append({'label': dm.name, 'mesh': dm, 'fields': fsets[1], 'layout': families.scatter_layouts(dm, rnd, 1), 'ref_extra': 0})
     return out
 
 
